@@ -115,6 +115,10 @@ class World(object):
             return self.sd.SCSIDevice(self.path, rw)
         if detect and how == "init_device":
             return mod("pyscsi.utils").init_device(self.path, read_write=rw)
+        # flags are given as booleans or as 0 / 1 (configuration files, argparse): the same meaning
+        self.made = getattr(self, "made", 0) + 1
+        if self.made % 2:
+            return self.sd.SCSIDevice(self.path, readwrite=int(bool(rw)), detect_replugged=int(bool(detect)))
         return self.sd.SCSIDevice(self.path, readwrite=rw, detect_replugged=detect)
 
     def obs(self, out, ncalls_before):
